@@ -402,6 +402,9 @@ impl Renamer {
         match r.rtype {
             // A and TXT are the universe's plain data types: RFC 2136 treats them alike
             ru::T_A | ru::T_TXT => format!("d{}", intern(&mut self.addrs, &r.rdata)),
+            // NULL (opaque RDATA) is one more plain data type - except in the metavalue forms with
+            // RDATA, where the handler had an arm of its own for it (kept apart: TYPE10 rd)
+            10 if r.class == ru::CLASS_IN => format!("d{}", intern(&mut self.addrs, &r.rdata)),
             ru::T_NS | ru::T_CNAME => match rdata_target(r) {
                 Some(t) => self.name(&t),
                 None => "?".into(),
@@ -455,7 +458,7 @@ pub fn render(zone: &Snap, msg: &Msg, cur: u32) -> String {
     let atoms = || msg.prereqs.iter().chain(msg.updates.iter());
     rn.owners = atoms().map(|r| r.name.clone()).chain(zone.rrs.iter().map(|r| r.name.clone())).chain(zone.empty_keys.iter().map(|(n, _)| n.clone())).collect();
     let tname = |t: u16| -> String {
-        if t == ru::T_A || t == ru::T_TXT {
+        if t == ru::T_A || t == ru::T_TXT || t == 10 {
             "D".into()
         } else {
             vupd::type_name(t)
@@ -469,8 +472,15 @@ pub fn render(zone: &Snap, msg: &Msg, cur: u32) -> String {
         let n = rn.name(&r.name);
         let data_atom = !is_prereq && r.class == ru::CLASS_IN;
         let t = if data_atom { rn.ttl_data(r.ttl) } else { rn.ttl_meta(r.ttl) };
-        let plain_type = matches!(r.rtype, ru::T_A | ru::T_TXT | ru::T_NS | ru::T_CNAME | ru::T_SOA);
-        let ty = if is_prereq && r.rdata.is_empty() && plain_type && !holds(&r.name, r.rtype) { "~".to_string() } else { tname(r.rtype) };
+        let plain_type = matches!(r.rtype, ru::T_A | ru::T_TXT | ru::T_NS | ru::T_CNAME | ru::T_SOA | 10);
+        let malformed_null = r.rtype == 10 && r.class != ru::CLASS_IN && !r.rdata.is_empty();
+        let ty = if is_prereq && r.rdata.is_empty() && plain_type && !holds(&r.name, r.rtype) {
+            "~".to_string()
+        } else if malformed_null {
+            vupd::type_name(r.rtype)
+        } else {
+            tname(r.rtype)
+        };
         let rd = rn.rdata(r, cur);
         format!("{n} {t} {} {ty} {rd}", vupd::class_name(r.class))
     };
